@@ -73,6 +73,8 @@ class Leaf:
                 args.append('callback = |lex| (cb%d(lex) + 1) * 2 / 2 - 1' % self.cb)
             elif form == 4 and self.cb == 1:
                 args.append('callback = |lex| (!cb%d(lex)) == false' % self.cb)
+            elif form == 5 and self.cb == 3:
+                args.append('callback = logos::skip')                   # the function the library itself provides
             elif form == 4:
                 args.append('callback = |lex| { cb%d(lex) }' % self.cb)  # ... or a block
             else:
@@ -419,6 +421,15 @@ def fixed_corpus():
     for lf in dd.leaves:
         lf.cb_form = 4
     out.append(dd)
+    # the library's own `logos::skip` as a callback, on a pattern that other patterns begin with (a skipped match must leave
+    # exactly what a skip pattern would: the next token may start with the very text that was just skipped)
+    for k, leaves in enumerate([[L('token', '-', cb=3), L('token', '->'), L('token', '>'), L('regex', '[a-z]+')],
+                                [L('regex', ' +', cb=3), L('token', ' x'), L('regex', '[a-z]+')],
+                                [L('regex', 'ab', cb=3), L('token', 'abab!'), L('regex', '[a-c]'), L('token', '!')],
+                                [L('token', '/', cb=3), L('regex', '//[a-z]*'), L('regex', '[a-z]+'), L('skip', ' ')]]):
+        dd = Def(leaves, origin='fixed:lib-skip-%d' % k)
+        dd.leaves[0].cb_form = 5
+        out.append(dd)
     # the error type written as a tuple, an array, a generic type, a qualified path (the error callback supplies the default errors
     # whatever the type looks like); callbacks that return bool / Option produce default errors too
     for k, ety in enumerate([('(u8, usize)', '(7u8, lex.span().len())'), ('[usize; 2]', '[7usize, lex.span().len()]'), ('Option<usize>', 'Some(lex.span().len())'),
